@@ -40,7 +40,7 @@ def requirements(tier):
     for name in E.ALL:
         r[f"judged:{name}/perm"] = 15
         r[f"judged:{name}/zeros"] = 15
-    r.update({"w_rank_deficient_judged": 200, "w_float32": 500, "rng_recorder_hits": 1, "judged_many_zero_columns": 60, "w_all_entries_below_norm_eps_but_s_above": 100})
+    r.update({"w_rank_deficient_judged": 200, "w_float32": 500, "rng_recorder_hits": 1, "judged_many_zero_columns": 60, "w_all_entries_below_norm_eps_but_s_above": 100, "w_column_major_input": 300})
     return r
 
 
@@ -93,13 +93,16 @@ def check_case(case, ctx):
     dname, desc, kind = case["dtype"], case["agg"], case["kind"]
     name = desc["name"]
     J64 = np.array(case["J"], dtype=np.float64).reshape(len(case["J"]), -1)
-    Jt = to_t(J64, dname)
+    trng = np.random.default_rng(case["tseed"])
+    col_major = bool(trng.random() < 0.2)  # the matrix handed over in a non-contiguous memory layout
+    Jt = to_t(J64, dname, column_major=col_major)
+    if col_major:
+        ctx.count("w_column_major_input")
     J = as64(Jt)
     m, n = J.shape
     if not np.isfinite(J).all():
         ctx.not_judged("nonfinite_after_cast")
         return
-    trng = np.random.default_rng(case["tseed"])
     eps = EPS[dname]
     out1, err1, rec1 = E.run(desc, Jt, seed=case["seed"])
     if rec1["randperm"] or rec1["rand"] or rec1["randn"]:
